@@ -128,7 +128,17 @@ fn short_loc(s: &str) -> String {
 pub fn run_guarded<R: Rig>(rig: &R, sc: &R::Sc, tape: Tape, narrative: bool) -> RunReport {
     LAST_PANIC.with(|p| *p.borrow_mut() = None);
     match catch_unwind(AssertUnwindSafe(|| rig.run(sc, tape, narrative))) {
-        Ok(r) => r,
+        Ok(mut r) => {
+            // a panic inside a task spawned on the runtime is swallowed by the runtime: the hook
+            // has still seen it
+            if let Some(msg) = LAST_PANIC.with(|p| p.borrow_mut().take()) {
+                let loc = short_loc(&msg);
+                let harness = loc.starts_with("src/") || loc.contains("/verif/");
+                let rule = if harness { "HARNESS.panic".to_string() } else { format!("{}.panic", rig.property()) };
+                r.violations.push(Violation::new(&rule, loc, format!("panic inside a spawned task: {}", msg)));
+            }
+            r
+        }
         Err(_) => {
             let msg = LAST_PANIC.with(|p| p.borrow_mut().take()).unwrap_or_else(|| "panic".into());
             let loc = short_loc(&msg);
@@ -237,6 +247,7 @@ pub fn run_batch<R: Rig>(rig: &R, opts: &BatchOpts) -> BatchResult {
     let n = opts.runs_override.unwrap_or_else(|| rig.runs(opts.tier));
     let next = AtomicU64::new(0);
     let agg = Mutex::new(Agg::<R::Sc>::default());
+    let trace_runs = std::env::var("VERIF_TRACE_RUNS").is_ok();
     println!("[{}] rig={} tier={:?} seed={} runs={} jobs={}", prop, rig.rig_name(), opts.tier, opts.seed, n, opts.jobs);
 
     std::thread::scope(|s| {
@@ -252,6 +263,9 @@ pub fn run_batch<R: Rig>(rig: &R, opts: &BatchOpts) -> BatchResult {
                     let mut rng = Rng::new(seed_i);
                     let sc = rig.gen(&mut rng, i, opts.tier);
                     let tape = Tape::from_seed(rng.next_u64());
+                    if trace_runs {
+                        eprintln!("run {}", i);
+                    }
                     let rep = run_guarded(rig, &sc, tape, false);
                     local.evals += 1;
                     local.sim_ms += rep.sim_ms;
